@@ -378,7 +378,7 @@ func runC13(c *Ctx) {
 		})
 		c.AddCount("exhaustive_histories_len3_reduced_alphabet", m*m*m)
 	}
-	nRand := c.pick(40000, 1500000)
+	nRand := c.pick(120000, 1500000)
 	c.ParallelFor(nRand, func(w *Worker, i int64) {
 		r := newRng(c.Seed, 0xc13, uint64(i))
 		var h []Op
